@@ -501,6 +501,7 @@ LEVEL_TEXT = ('Generated-input search: the matrix of the function computed in th
               'transpose for basis and dense cotangents, for every generated subset of inputs requiring grad. Where the pinned '
               'code is known to be wrong (finding D2) the observed operator must coincide with an independently built model of '
               'that defect, so other regressions in the same modes are still caught.')
+LEVEL_TEXT += (' Also generated: separate row/column wavelets, hand-made banks with odd tap counts (zero mode), a coefficient tensor shared by the batch, exact zeros, a second pull-back through the retained graph, filters overwritten in place between forward and backward (must be refused or harmless).')
 LEVEL_NOTE = ('Float64; wavelets with filter length <= 20; sizes 1-D <= 64, 2-D <= 20x20; known findings KF-D2a/b/c and KF-D1 are '
               'classified by predicate AND by matching the modelled behaviour (D2).')
 TECHNIQUE = 'property-based testing (Hypothesis), adjoint oracle: autograd VJP vs transposed forward matrix, modelled known defect'
